@@ -413,10 +413,28 @@ func envClassKnown(init *oci.Spec, e *specs.ContainerEdits) bool {
 	return false
 }
 
+var c03AliasTurn int
+
 // c03Cases applies the edits through one of the three public entry points and emits the case(s).
 func c03Cases(s *hx.Suite, hosts []hostNode, init *oci.Spec, e *specs.ContainerEdits, entry int, class string) {
 	before := deepCopyOCI(init)
 	work := deepCopyOCI(init)
+	// Every other case: a hook of the OCI spec shares its env slice with the process (the same backing array, as a runtime
+	// that builds its hooks from the container's environment has it).  The values are what `before` says; whatever Apply does
+	// to the process env, it must not rewrite the array under the hook ("nothing else in the OCI spec changes").
+	c03AliasTurn++
+	if c03AliasTurn%2 == 0 && work.Process != nil && len(work.Process.Env) > 0 && work.Hooks != nil {
+		for _, hl := range []*[]oci.Hook{&work.Hooks.CreateRuntime, &work.Hooks.Prestart, &work.Hooks.Poststop} {
+			if len(*hl) > 0 {
+				(*hl)[0].Env = work.Process.Env
+			}
+		}
+		for _, hl := range []*[]oci.Hook{&before.Hooks.CreateRuntime, &before.Hooks.Prestart, &before.Hooks.Poststop} {
+			if len(*hl) > 0 {
+				(*hl)[0].Env = append([]string{}, before.Process.Env...)
+			}
+		}
+	}
 	var err error
 	p, _ := hx.Guard(func() {
 		switch entry {
